@@ -11,6 +11,13 @@ wrappers:
           simulator, self-tested against state vectors - for larger n).  With VALID (n independent rows) this is
           equality of states, signs included.
 
+  FRAME   (hardening H1/H2/H5) an operation applies to the tableau it is given: the caller's arrays, the other operands of
+          tensor(), keep / dims, the source of a copy are bit-for-bit unchanged; a second use of the same input gives the same
+          result; run_circuit on a StabilizerTableau and on a CliffordTableau describe the same state
+          (items frames.arguments_unchanged, run_circuit.stabilizer_tableau_and_large).
+  SIZE    (hardening H3) walk.rowsum_above_64_qubits: histories on 65..130 qubits built from the operations that go through
+          row_sum, from tableaux in a mixed presentation, mirrored by refsem.tabref.RefTableau.
+
 Measurement-like operations have several legitimate results; the oracle produces the candidates:
   z_measurement_gate   outcome must have non-zero probability; if both outcomes are possible and the caller forces 0/1 the
                        forced one must be returned; third result is non-zero exactly when the outcome was random;
@@ -723,6 +730,285 @@ def walk_tensor_case(inp):
     return _walk(inp)
 
 
+# ---- H3: more than 64 qubits, histories made of the operations that go through row_sum -----------------------------
+def heavy_start(n, k, rng):
+    """n-qubit tableau whose measurements are non-trivial: |0>^k (x) random (n-k)-qubit state, then a layer of gates that keep
+    Z-type group elements Z-type (CX, CZ, CY, P, X, Z, SWAP across the whole register - so Z-measurements with a determined
+    outcome stay frequent), then a thorough mix of the presentation (row products: generators carry X/Y/Z on many qubits, so the
+    row sums of a measurement meet every kind of overlap)."""
+    t = R.RefTableau(k)
+    if n > k:
+        t.tensor(R.RefTableau.random(n - k, rng, depth=3 * (n - k)))
+    for _ in range(4 * n):
+        g = ["CX", "CZ", "CY", "P", "X", "Z", "SWAP"][int(rng.integers(0, 7))]
+        if g in ("P", "X", "Z"):
+            t.gate(g, [int(rng.integers(0, n))])
+        else:
+            a, b = (int(x) for x in rng.choice(n, size=2, replace=False))
+            t.gate(g, [a, b])
+    t.mix_presentation(rng, moves=6 * n)
+    return t
+
+
+def gen_op_heavy(rng, n, nmin, nmax, recent):
+    mode = MODES[int(rng.integers(0, 3))]
+    r = rng.random()
+    q = int(rng.integers(0, n))
+    if recent and rng.random() < 0.25:
+        q = min(recent[int(rng.integers(0, len(recent)))], n - 1)
+    if r < 0.34:
+        return ["M", q, mode]
+    if r < 0.48:
+        return ["RESET", "zxy"[int(rng.integers(0, 3))], q, int(rng.integers(0, 2)), mode]
+    if r < 0.60:
+        return ["REM", q, mode] if n > nmin else ["INS", int(rng.integers(0, n + 1))]
+    if r < 0.66:
+        if n > nmin + 3:
+            drop = set(int(a) for a in rng.choice(n, size=int(rng.integers(1, 4)), replace=False))
+            return ["PT", [j for j in range(n) if j not in drop], mode]
+        return ["INS", n if rng.random() < 0.3 else int(rng.integers(0, n + 1))]
+    if r < 0.72:
+        return ["INS", int(rng.integers(0, n + 1))] if n < nmax else ["REM", q, mode]
+    if r < 0.76:
+        return ["SWAP", q, int(rng.integers(0, n))]
+    if r < 0.88:
+        c, t = (int(a) for a in rng.choice(n, size=2, replace=False))
+        return [GATE2[int(rng.integers(0, 3))], c, t]
+    return [["H", "P", "PD", "X", "Y", "Z"][int(rng.integers(0, 6))], q]
+
+
+def heavy_history(inp, stats=None):
+    n0, k, seed, steps = inp
+    nmin, nmax = 65, 130
+    rng = np.random.default_rng([seed, n0, k, steps, 65])
+    np.random.seed(seed % 2**32)
+    ref = heavy_start(n0, k, rng)
+    T = mk(ref.table(), ref.R)
+    model = REF(ref)
+    recent = []
+    hist = []
+    for i in range(steps):
+        op = gen_op_heavy(rng, model.n, nmin, nmax, recent)
+        hist.append(op)
+        if op[0] in ("M", "RESET"):
+            recent.append(op[1] if op[0] == "M" else op[2])
+            recent = recent[-6:]
+        elif op[0] in ("REM", "PT", "INS"):
+            recent = []
+        if stats is not None and op[0] in ("M", "RESET", "REM"):
+            qq = op[2] if op[0] == "RESET" else op[1]
+            tt = model.t
+            rnd = bool(np.any(tt.X[tt.n:, qq]))
+            stats.append((op[0], rnd, int(np.sum(tt.X[:, qq]))))
+        cands = model.step(op)
+        T, obs = real_apply(T, op)
+        s, model = conforms(T, cands, obs)
+        if s:
+            return f"step {i} (n={cands[0][1].n}) op={op}: {s}; last ops {[o if o[0] != 'PT' else ['PT', '...', o[2]] for o in hist[-4:]]}"
+    return None
+
+
+@S.item("walk.rowsum_above_64_qubits", site="graphiq.backends.stabilizer.functions.linalg:row_sum",
+        bound="seeded histories on 65..130 qubits made of measurements (3 modes, repeated on recently measured qubits), resets "
+              "(x,y,z), removals, partial traces dropping 1-3 qubits, insertions, swaps and entangling gates, from tableaux in a "
+              "thoroughly mixed presentation (generators with X/Y/Z on many qubits; a |0>^k block spread by CX/CZ/CY keeps outcomes "
+              "that are products of many generators frequent); VALID and the signed stabilizer group against the RefTableau "
+              "mirror after every step",
+        clause="... of any size, up to hundreds of qubits: the row sums of measurement / reset / removal / partial trace above 64 qubits")
+def heavy_case(inp):
+    return heavy_history(inp)
+
+
+# ---- H2 / H1 / H5: argument frames, repeated use of the same input, StabilizerTableau vs CliffordTableau ------------
+def _snap(T):
+    return (np.array(T.table).copy(), np.array(T.phase).copy(), np.array(T.iphase).copy() if hasattr(T, "iphase") else None,
+            T.n_qubits, tuple(T.shape), np.asarray(T.table).dtype.kind)
+
+
+def _same_snap(a, b):
+    return (np.array_equal(a[0], b[0]) and np.array_equal(a[1], b[1]) and (a[2] is None or np.array_equal(a[2], b[2]))
+            and a[3:5] == b[3:5])
+
+
+def _short_history(rng, n):
+    """operations that write sign bits / table rows in place or rebuild the arrays"""
+    q = lambda: int(rng.integers(0, n))  # noqa: E731
+    ops = [["H", q()], ["M", q(), 1], ["X", q()], ["RESET", "z", q(), 1, 0], ["P", q()], ["M", q(), 0], ["Y", q()]]
+    if n >= 2:
+        a, b = (int(x) for x in rng.choice(n, size=2, replace=False))
+        ops += [["CX", a, b], ["SWAP", a, b], ["M", a, 1], ["CZ", b, a], ["RESET", "y", b, 1, 1]]
+    return ops
+
+
+def _model_of(ref, small):
+    return start_sv(ref.table().tolist(), ref.R.tolist()) if small else REF(ref.copy())
+
+
+@S.item("frames.arguments_unchanged", site=f"{CL}:tensor",
+        bound="seeded random tableaux with n in 1..5 (state vectors) and 33..70 (RefTableau; tensor products cross 64 qubits): "
+              "CliffordTableau / StabilizerTableau built from the caller's int64, float64 and bool arrays, then a 7-12 step history "
+              "(gates, forced measurements, resets, swap) on the object, a second object built from the same arrays; "
+              "tensor([A,B,C]); partial_trace(T, keep, dims) with list and ndarray keep; CliffordTableau(T), T.copy(), to_stabilizer()",
+        clause="each operation applies to the tableau it is given: the caller's arrays, the other operands of tensor (B, C and the "
+               "list), keep / dims and the source of a copy are bit-for-bit unchanged, and a second use of the same input gives "
+               "the same result")
+def frames_case(inp):
+    n, seed = inp
+    tr, sfc, CliffordTableau, StabilizerTableau = _g()
+    rng = np.random.default_rng([seed, n, 41])
+    np.random.seed(seed % 2**32)
+    small = n <= 5
+    ref = R.RefTableau.random(n, rng)
+    tab0, ph0 = ref.table(), ref.R.copy()
+    m0 = _model_of(ref, small)
+    # 1. the caller's arrays (int: astype may alias; float / bool: must be converted)
+    for dt in (np.int64, np.float64, np.bool_):
+        arr, ph = tab0.astype(dt), ph0.astype(dt)
+        arr_c, ph_c = arr.copy(), ph.copy()
+        T = CliffordTableau(arr, ph)
+        s, _ = conforms(T, [(None, m0)])
+        if s:
+            return f"CliffordTableau from {dt.__name__} arrays: {s}"
+        s = run_ops(T, m0, _short_history(rng, n))
+        if s:
+            return f"history on a tableau built from {dt.__name__} arrays: {s}"
+        if not (np.array_equal(arr, arr_c) and np.array_equal(ph, ph_c) and arr.dtype == dt and ph.dtype == dt):
+            return f"operations on CliffordTableau(table, phase) wrote into the caller's {dt.__name__} arrays"
+        T2 = CliffordTableau(arr, ph)  # H1: the same arrays serve a second tableau
+        if not (np.array_equal(T2.table, tab0) and np.array_equal(T2.phase, ph0)):
+            return f"second CliffordTableau from the same {dt.__name__} arrays differs from the data"
+        rows, rph = arr[n:], ph[n:]
+        rows_c, rph_c = rows.copy(), rph.copy()
+        st = StabilizerTableau(rows, rph)
+        for g, qs in (("H", [0]), ("P", [n - 1]), ("X", [0]), ("Y", [n - 1]), ("Z", [0])) + ((("CX", [0, n - 1]), ("CZ", [n - 1, 0])) if n > 1 else ()):
+            st = _gate_fn(g)(st, *qs)
+        if not (np.array_equal(rows, rows_c) and np.array_equal(rph, rph_c) and np.array_equal(arr, arr_c)):
+            return f"gates on StabilizerTableau(rows, phase) wrote into the caller's {dt.__name__} arrays"
+    # 2. copies: the source is a frame
+    A = CliffordTableau(tab0.copy(), ph0.copy())
+    sA = _snap(A)
+    for nm, maker in (("CliffordTableau(T)", lambda: CliffordTableau(A)), ("T.copy()", lambda: A.copy())):
+        B = maker()
+        s = run_ops(B, m0, _short_history(rng, n))
+        if s:
+            return f"history on {nm}: {s}"
+        if not _same_snap(_snap(A), sA):
+            return f"a history on {nm} changed the tableau it was copied from"
+    S1 = A.to_stabilizer()
+    tr.hadamard_gate(S1, 0)
+    tr.x_gate(S1, n - 1)
+    S1.phase[:] = 1 - S1.phase
+    S1.table[:] = 1 - S1.table
+    if not _same_snap(_snap(A), sA):
+        return "operations on to_stabilizer() changed the CliffordTableau"
+    # 3. tensor: B, C and the list are frames; the product is |a>|b>|c>
+    nb, nc = (int(rng.integers(1, 3)), int(rng.integers(1, 3))) if small and n <= 3 else (
+        (1, 1) if small else (int(rng.integers(1, 40)), int(rng.integers(1, 12))))
+    rb, rc = R.RefTableau.random(nb, rng), R.RefTableau.random(nc, rng)
+    B, C = mk(rb.table(), rb.R), mk(rc.table(), rc.R)
+    sB, sC = _snap(B), _snap(C)
+    A2 = A.copy()
+    lst = [A2, B, C]
+    out = sfc.tensor(lst)
+    if len(lst) != 3 or lst[0] is not A2 or lst[1] is not B or lst[2] is not C:
+        return "tensor changed the caller's list"
+    tot = ref.copy()
+    tot.tensor(rb)
+    tot.tensor(rc)
+    mt = _model_of(tot, tot.n <= 6)
+    s, _ = conforms(out, [(None, mt)])
+    if s:
+        return f"tensor of {n}+{nb}+{nc} qubits: {s}"
+    if not (_same_snap(_snap(B), sB) and _same_snap(_snap(C), sC)):
+        return "tensor modified its second / third operand"
+    s = run_ops(out, mt, _short_history(rng, tot.n))
+    if s:
+        return f"history on the tensor product: {s}"
+    if not (_same_snap(_snap(B), sB) and _same_snap(_snap(C), sC)):
+        return "a history on the tensor product changed the second / third operand (shared arrays)"
+    out2 = sfc.tensor([A.copy(), B, C])  # H1: the same operands in a second product
+    s, _ = conforms(out2, [(None, mt)])
+    if s:
+        return f"second tensor product with the same operands: {s}"
+    # 4. partial_trace / remove_qubit: keep and dims are frames
+    if n >= 2:
+        keep = sorted(int(a) for a in rng.choice(n, size=int(rng.integers(1, n)), replace=False))
+        for kp in (list(keep), np.array(keep)):
+            kp_c = np.array(kp).copy()
+            dims = [2] * n
+            Tp = A.copy()
+            cands = m0.step(["PT", keep, 1])
+            Tp = sfc.partial_trace(Tp, kp, dims, 1)
+            s, _ = conforms(Tp, cands)
+            if s:
+                return f"partial_trace keep={keep} ({type(kp).__name__}): {s}"
+            if not np.array_equal(np.array(kp), kp_c) or dims != [2] * n:
+                return "partial_trace modified keep / dims"
+            if not _same_snap(_snap(A), sA):
+                return "partial_trace of a copy changed the original"
+    return None
+
+
+@S.item("run_circuit.stabilizer_tableau_and_large", site=f"{TR}:run_circuit",
+        bound="seeded random tableaux n in 1..5 (state vectors) and 65..130 (RefTableau) x random gate lists (length <= 12 over "
+              "H,P,P_dag,X,Y,Z,I,CNOT,CZ) x reverse in {False,True}: the same list run on the CliffordTableau and on its "
+              "stabilizer half as StabilizerTableau (the form inverse_circuit uses), twice in a row on the same object",
+        clause="run_circuit accepts CliffordTableau or StabilizerTableau: both describe U|psi> (signs included); reverse = inverse "
+               "circuit, so forward then reverse gives back the state")
+def circuit_stab_case(inp):
+    n, seed, reverse = inp
+    tr, sfc, CliffordTableau, StabilizerTableau = _g()
+    rng = np.random.default_rng([seed, n, 43])
+    small = n <= 5
+    ref = R.RefTableau.random(n, rng) if small else heavy_start(n, n // 3, rng)
+    names = ["H", "P", "P_dag", "X", "Y", "Z", "I", "CNOT", "CZ"]
+    glist = []
+    for _ in range(int(rng.integers(1, 13))):
+        nm = names[int(rng.integers(0, 9))]
+        if nm in ("CNOT", "CZ"):
+            if n < 2:
+                continue
+            a, b = (int(x) for x in rng.choice(n, size=2, replace=False))
+            glist.append([nm, a, b])
+        else:
+            glist.append([nm, int(rng.integers(0, n))])
+    m0 = _model_of(ref, small)
+    (_, m1), = m0.step(["CIRC", glist, reverse])
+    (_, m2), = m1.step(["CIRC", glist, reverse])
+    (_, mback), = m1.step(["CIRC", glist, not reverse])
+    T = mk(ref.table(), ref.R)
+    St = StabilizerTableau(ref.table()[n:].copy(), ref.R[n:].copy())
+
+    def stab_symptom(t, m, what):
+        if not isinstance(t, StabilizerTableau) or t.n_qubits != n or tuple(t.shape) != (n, 2 * n):
+            return f"{what}: result {type(t).__name__} n={getattr(t, 'n_qubits', None)} shape={getattr(t, 'shape', None)}"
+        if not R.valid_stabilizer_rows(t.table, n) or not R.valid_phase(t.phase, n):
+            return f"{what}: rows not binary / commuting / independent"
+        bad = (R.rows_describe(m.v, n, np.asarray(t.table), np.asarray(t.phase)) if small
+               else m.t.same_state_as_rows(np.asarray(t.table), np.asarray(t.phase)))
+        return None if bad is None else f"{what}: StabilizerTableau row {bad} does not stabilise the expected state (gates {glist}, reverse={reverse})"
+
+    for rnd, m in ((1, m1), (2, m2)):
+        T = tr.run_circuit(T, [tuple(g) for g in glist], reverse=bool(reverse))
+        s, _ = conforms(T, [(None, m)])
+        if s:
+            return f"CliffordTableau, run {rnd} (gates {glist}, reverse={reverse}): {s}"
+        St = tr.run_circuit(St, [tuple(g) for g in glist], reverse=bool(reverse))
+        s = stab_symptom(St, m, f"run {rnd}")
+        if s:
+            return s
+    # forward then reverse on a fresh pair
+    T = tr.run_circuit(mk(ref.table(), ref.R), [tuple(g) for g in glist], reverse=bool(reverse))
+    T = tr.run_circuit(T, [tuple(g) for g in glist], reverse=not reverse)
+    s, _ = conforms(T, [(None, m0)])
+    if s:
+        return f"circuit followed by its inverse (gates {glist}): {s}"
+    St = StabilizerTableau(ref.table()[n:].copy(), ref.R[n:].copy())
+    St = tr.run_circuit(St, [tuple(g) for g in glist], reverse=bool(reverse))
+    St = tr.run_circuit(St, [tuple(g) for g in glist], reverse=not reverse)
+    return stab_symptom(St, m0, "circuit followed by its inverse")
+
+
 # ------------------------------------------------------------------------------------------------------------
 # items: wrappers
 # ------------------------------------------------------------------------------------------------------------
@@ -947,7 +1233,7 @@ def run(tier, seed):
         tens.append(parts)
     S.map("tensor.product", tens, nontrivial=lambda x: any(any(p[1]) for p in x))
 
-    S.map("single_ops.n3_to_5_sampled", [[int(rng.integers(3, 6)), int(rng.integers(0, 2**31))] for _ in range(6000 if thorough else 800)])
+    S.map("single_ops.n3_to_5_sampled", [[int(rng.integers(3, 6)), int(rng.integers(0, 2**31))] for _ in range(6000 if thorough else 650)])
 
     S.map("create_states.named", [[k, n] for k in NAMED for n in [1, 2, 3, 4, 5, 6, 10, 50, 200]])
 
@@ -974,12 +1260,21 @@ def run(tier, seed):
           + [[int(rng.integers(8, 50)), int(rng.integers(0, 2**31)), 100, 60, 1] for _ in range(nw // 8)])
     large = []
     plan = ([(200, 200, 300, 24), (100, 120, 300, 40), (40, 60, 300, 80), (12, 20, 300, 160)] if thorough
-            else [(198, 200, 100, 6), (100, 110, 100, 8), (40, 50, 150, 16), (12, 20, 150, 34)])
+            else [(198, 200, 100, 4), (100, 110, 100, 4), (40, 50, 150, 12), (12, 20, 150, 24)])  # 65..130 qubits: walk.rowsum_above_64_qubits
     for n0, nmax, steps, cnt in plan:
         for _ in range(cnt):
             large.append([n0, int(rng.integers(0, 2**31)), steps, nmax, 0])
     S.map("walk.large_valid_and_state", large, chunksize=1)
 
+    nh = 400 if thorough else 90
+    S.map("walk.rowsum_above_64_qubits",
+          [[n_, int(rng.integers(2, n_ // 2)), int(rng.integers(0, 2**31)), 60 if thorough else 40]
+           for n_ in (int(rng.integers(66, 131)) for _ in range(nh))], chunksize=1)
+    S.map("frames.arguments_unchanged", [[int(rng.integers(1, 6)), int(rng.integers(0, 2**31))] for _ in range(1500 if thorough else 220)]
+          + [[int(rng.integers(33, 71)), int(rng.integers(0, 2**31))] for _ in range(200 if thorough else 30)])
+    S.map("run_circuit.stabilizer_tableau_and_large",
+          [[int(rng.integers(1, 6)), int(rng.integers(0, 2**31)), bool(i % 2)] for i in range(2000 if thorough else 300)]
+          + [[int(rng.integers(65, 131)), int(rng.integers(0, 2**31)), bool(i % 2)] for i in range(200 if thorough else 40)])
     S.map("Stabilizer.wrapper_history", [[int(rng.integers(1, 5)), int(rng.integers(0, 2**31)), 60, 5] for _ in range(nw // 2)])
     S.map("MixedStabilizer.wrapper_history",
           [[int(rng.integers(1, 4)), int(rng.integers(0, 2**31)), 40, 4, int(rng.integers(2, 4))] for _ in range(nw // 2)])
